@@ -132,6 +132,32 @@ def Builder.addAll (hash : List Prefix → Nat) : Builder → List (List Prefix)
     let (b2, is) := Builder.addAll hash b1 ss
     (b2, i :: is)
 
+/-! ### the three producers of LPM slots: `addIp` / `addSourceIp` (shared through `lpmDedup`) and
+`addSourceMac` (never shared) -/
+
+/-- `addSourceMac`'s 16-byte form of a MAC (bytes 10..15) as a host route. -/
+def macPrefix128 (m : Nat) : Prefix := ⟨false, m, 128⟩
+
+inductive SetOp where
+  | ip (raw : List Prefix)                  -- addIp / addSourceIp
+  | mac (macs : List Nat) (neg : Bool)      -- addSourceMac; `neg` = `f.Not`
+
+/-- What the slot assigned to an operation has to hold. -/
+def SetOp.slotValues : SetOp → List Prefix
+  | .ip raw => canonicalize raw
+  | .mac macs neg => (if neg then macs ++ [0] else macs).map macPrefix128   -- zero MAC appended when negated
+
+def Builder.addOp (hash : List Prefix → Nat) (b : Builder) : SetOp → Builder × Nat
+  | .ip raw => b.addSet hash raw
+  | .mac macs neg => (⟨b.tries ++ [(SetOp.mac macs neg).slotValues], b.dedup⟩, b.tries.length)
+
+def Builder.addOps (hash : List Prefix → Nat) : Builder → List SetOp → Builder × List Nat
+  | b, [] => (b, [])
+  | b, s :: ss =>
+    let (b1, i) := b.addOp hash s
+    let (b2, is) := Builder.addOps hash b1 ss
+    (b2, i :: is)
+
 /-- FNV-1a over (bits, address bytes) exactly as `hashLpmSet` (64-bit wrap-around). Used only by the
 driver so the sharing decisions can be compared index by index. -/
 def fnvStep (h x : Nat) : Nat := ((h ^^^ x) * 1099511628211) % 2 ^ 64
